@@ -1246,22 +1246,19 @@ def g8(ctx, res):
     # each built-in answers with a bool on every path
     for nm, f in sorted(regs.items()):
         vfb = V(ctx, f).body
-        rets = [ret_expr(p_) for p_ in enumerate_paths(vfb) if p_.exit == "return"]
-        falls = [p_ for p_ in enumerate_paths(vfb) if p_.exit == "fall"]
+        pths = enumerate_paths(vfb)
+        falls = [p_ for p_ in pths if p_.exit == "fall"]
+        succ = [ret_expr(p_) for p_ in pths if p_.exit == "return" and not any(isinstance(s_, tuple) and s_[0] == "handler" for s_ in p_.stmts)]
+        fail = [ret_expr(p_) for p_ in pths if p_.exit == "return" and any(isinstance(s_, tuple) and s_[0] == "handler" for s_ in p_.stmts)]
 
-        def boolish(e):
-            if isinstance(e, ast.Constant) and isinstance(e.value, bool):
-                return True
-            if isinstance(e, (ast.Compare,)) or (isinstance(e, ast.UnaryOp) and isinstance(e.op, ast.Not)):
-                return True
-            return isinstance(e, ast.Call) and dotted(e.func) in ("bool", "isinstance")
-        all_bool = bool(rets) and all(e is not None and boolish(e) for e in rets) and not falls
-        non_bool = [norm(e) if e is not None else "None" for e in rets if e is None or not boolish(e)]
-        definitely_not = any(isinstance(e, ast.Constant) and not isinstance(e.value, bool) for e in rets if e is not None) or bool(falls) \
-            or any(e is None for e in rets)
-        res.judge(True if all_bool else (False if definitely_not else None), f, "returns True / False on every path",
-                  detail={"other_returns": non_bool},
-                  reason="a checker either accepts or rejects")
+        def const(e, val):
+            return isinstance(e, ast.Constant) and e.value is val
+        all_ok = bool(succ) and bool(fail) and not falls and all(const(e, True) for e in succ) and all(const(e, False) for e in fail)
+        computed = [norm(e) if e is not None else "None" for e in succ + fail if not (const(e, True) or const(e, False))]
+        res.judge(True if all_ok else (False if (computed or falls or not fail) else None), f, "returns True / False on every path",
+                  detail={"computed_returns": computed},
+                  reason="the built-in checker delegates acceptance entirely to the library parser: True when it parsed, False when "
+                         "it raised - a computed answer narrows (or widens) what the parser accepts")
 
 
 # ---------------------------------------------------------------------- G9
@@ -1508,6 +1505,20 @@ def g10(ctx, res):
                     cmp_ok = True
                 if match(_parse(f"MV_f(self) == MV_f({other})"), x) is not None:
                     cmp_ok = True
+                if isinstance(x.left, ast.Name) and isinstance(x.comparators[0], ast.Name):
+                    # two views built by the same loop, one over vars(self), one over vars(other)
+                    import re as _re
+
+                    def canon(bld):
+                        names = [y.id for y in ast.walk(bld.target) if isinstance(y, ast.Name)]
+                        txt = "|".join([bld.kind, norm(bld.key) if bld.key is not None else "", norm(bld.elt)] + bld.guard_texts())
+                        for i_, nm_ in enumerate(names):
+                            txt = _re.sub(rf"\b{_re.escape(nm_)}\b", f"_{i_}", txt)
+                        return txt
+                    bl = [b_ for b_ in builders(V(ctx, eq).body) if b_.name == x.left.id and norm(b_.iter) == "vars(self).items()"]
+                    br = [b_ for b_ in builders(V(ctx, eq).body) if b_.name == x.comparators[0].id and norm(b_.iter) == f"vars({other}).items()"]
+                    if bl and br and canon(bl[0]) == canon(br[0]):
+                        cmp_ok = True
     res.judge(cmp_ok, eq, "return pub_vars(self) == pub_vars(other)", reason="the filtered attribute dicts are compared for equality")
     for c in element_family(ctx):
         for dunder in ("__eq__", "__ne__", "__hash__"):
@@ -1733,8 +1744,17 @@ def g12(ctx, res):
     if rb is not None:
         k, sv = norm(rb.target.elts[0]), norm(rb.target.elts[1])
         ok2 = not rb.guards and norm(rb.key) == f"self[{k}].name or {k}" and norm(rb.elt) == f"self[{k}]({sv})"
+    if ok2 is None:
+        # positive evidence of a wrong split: input members filtered by membership in the PYTHON-keyed property mapping
+        for b_ in builders(V(ctx, pc, keep=(v,)).body):
+            if b_.kind == "dict" and norm(b_.iter) == f"{v}.items()" and isinstance(b_.target, ast.Tuple) and b_.guards:
+                k_ = norm(b_.target.elts[0])
+                if any(g_ in (f"{k_} not in self.props", f"not {k_} in self.props", f"{k_} in self.props") for g_ in b_.guard_texts()):
+                    ok2 = False
     res.judge(ok2, pc, "{self[key].name or key: self[key](sub_value) for key, sub_value in value.items()}",
-              reason="every member of the merged dict is rebuilt: declared ones under their Python name, others under their JSON name")
+              reason="every member of the merged dict is rebuilt: declared ones under their Python name, others under their JSON name "
+                     "(input members are keyed by JSON names: selecting them by membership in the Python-keyed property mapping "
+                     "duplicates or drops renamed properties)")
     init = ctx.func("Object.__init__")
     ok3 = False
     for n in walk_own(V(ctx, init, keep=(init.params[1].name,)).body):
